@@ -192,8 +192,8 @@ class Gen:
         return '( '+' '.join(labels)+' ) '+''.join(out)
 def make(rnd, zmode='all'):
     g=Gen(rnd)
-    nleaves=rnd.choice([0,0,1,2,3]); leaves=rnd.sample(g.vars,min(nleaves,g.nvars))
-    node=g.derive(rnd.randint(1,3),leaves); goal=g.concl(node)
+    nleaves=rnd.choice([0,1,2,2,3,3]); leaves=rnd.sample(g.vars,min(nleaves,g.nvars))
+    node=g.derive(rnd.randint(2,4),leaves); goal=g.concl(node)
     rpn=[]; g.emit(node,rpn)
     texts={}
     for zm in ('none','all','random'):
